@@ -1380,6 +1380,8 @@ func (self *_Assembler) _asm_OP_num(_ *_Instr) {
 	self.Sjmp("JNE", "_skip_number_{n}")
 	self.Emit("MOVQ", jit.Imm(1), _VAR_fl)
 	self.Emit("ADDQ", jit.Imm(1), _IC)
+	self.Emit("CMPQ", _IC, _IL)      // the input may end with the opening quote
+	self.Sjmp("JAE", _LB_eof_error) // JAE   _eof_error
 	self.Link("_skip_number_{n}")
 
 	/* call skip_number */
@@ -1413,6 +1415,8 @@ func (self *_Assembler) _asm_OP_num(_ *_Instr) {
 	self.WriteRecNotAX(13, _DI, jit.Ptr(_VP, 0), false, false)
 	self.Emit("CMPQ", _VAR_fl, jit.Imm(1))
 	self.Sjmp("JNE", "_num_end_{n}")
+	self.Emit("CMPQ", _IC, _IL)      // the input may end before the closing quote
+	self.Sjmp("JAE", _LB_eof_error) // JAE   _eof_error
 	self.Emit("CMPB", jit.Sib(_IP, _IC, 1, 0), jit.Imm('"'))
 	self.Sjmp("JNE", _LB_char_0_error)
 	self.Emit("ADDQ", jit.Imm(1), _IC)
